@@ -193,12 +193,12 @@ Definition root_ok (t : target) (m : mode) (n : tnode) (r : list tnode) : bool :
   end.
 
 (* may node n become a child of the current parent, whose children so far are c *)
-Definition admits (t : target) (m : mode) (top : bool) (n : tnode) (c : list tnode) : bool :=
+Definition accepts (t : target) (m : mode) (top : bool) (n : tnode) (c : list tnode) : bool :=
   negb top || root_ok t m n c.
 
 (* append(newNode) / doAppendChildNode(...): the current element, else the fragment, else the document *)
 Definition append (t : target) (m : mode) (n : tnode) (s : st) : option st :=
-  if admits t m (is_nil (ctx s)) n (cur s) then Some (mkSt (buf s) (n :: cur s) (ctx s)) else None.
+  if accepts t m (is_nil (ctx s)) n (cur s) then Some (mkSt (buf s) (n :: cur s) (ctx s)) else None.
 
 (* processAccumulatedText() *)
 Definition flush (t : target) (m : mode) (s : st) : option st :=
@@ -212,7 +212,7 @@ Definition flush_if (b : bool) (t : target) (m : mode) (s : st) : option st :=
 
 (* startElement: the new element is linked to the current parent and becomes the current parent *)
 Definition push (t : target) (m : mode) (q ns : str) (a : list tattr) (s : st) : option st :=
-  if admits t m (is_nil (ctx s)) (TElem q ns a []) (cur s)
+  if accepts t m (is_nil (ctx s)) (TElem q ns a []) (cur s)
   then Some (mkSt (buf s) [] ((q, ns, a, cur s) :: ctx s)) else None.
 
 Definition close_frame (c : list tnode) (f : frame) : list tnode :=
@@ -452,10 +452,11 @@ Definition kind_of (e : ev) : evkind :=
   | EvEntRef _ => KEntRef
   end.
 
-(* does the event method attach a node or move the current-parent pointer (as coded) *)
-Definition structural (t : target) (m : mode) (k : evkind) : bool :=
+(* does the event method attach a node or move the current-parent pointer (as coded); [top]: no element is open *)
+Definition structural (t : target) (m : mode) (top : bool) (k : evkind) : bool :=
   match k with
-  | KStart | KEnd | KComment | KPI | KRaw | KIws => true
+  | KStart | KEnd | KComment | KPI | KRaw => true
+  | KIws => match t, m, top with STREE, MDoc, true => false | _, _, _ => true end
   | KCdata | KEntRef => match t with XDOM => true | STREE => false end
   | KEndDoc => match t, m with XDOM, _ => true | STREE, MFrag => true | STREE, MDoc => false end
   | KStartDoc | KChars => false
